@@ -33,6 +33,8 @@ TOL = 1e-9
 
 def shards(tier, seed):
     names = ['state', 'matrix', 'channel', 'space', 'f2', 'other-apis', 'cha']
+    if tier == 'thorough':
+        names.append('repo-tests')
     return [{'name': n} for n in names]
 
 
@@ -665,6 +667,9 @@ def run(ctx, shard):
             run_other(ctx, mon, numqi)
         elif name == 'cha':
             run_cha(ctx, mon, numqi)
+        elif name == 'repo-tests':
+            from vmon.repotests import run_repo_tests
+            run_repo_tests(ctx, ['test_random.py', 'test_channel.py'])
         ctx.extra['unseeded_generators_seen_in_seeded_calls'] = mon.leaks
     finally:
         mon.uninstall()
